@@ -70,7 +70,7 @@ def replay {σ : Type} (init : σ) (step : σ → String → String → σ × St
     t := { t with ops := t.ops + 1 }
     if out.nontrivial then
       t := { t with nontrivial := t.nontrivial + 1 }
-      let k := out.key.getD op
+      let k := out.key.getD (op ++ " => " ++ im)
       if !seen.contains k then
         seen := seen.insert k
         t := { t with distinct := t.distinct + 1 }
